@@ -1110,6 +1110,6 @@ def symmetric_projection(n):
     proj_matrix = np.zeros((int(n * (n + 1) / 2), n * n))
     for i in range(n * n):
         u, v = tensor_pos(i,n)
-        proj_matrix[_sym_index(u, v, n)][i] = 1
+        proj_matrix[sym_index(u, v, n)][i] = 1
 
     return np.array(proj_matrix)
